@@ -297,6 +297,92 @@ fn collision_squares(out: &mut Vec<String>, case: &mut usize, rng: &mut Rng, tie
             }
         }
     }
+    collision_multi(out, case, rng, tier, bes);
+    out.push(format!("cfg mask {}", u32::MAX));
+}
+
+/// three and more different small nodes with one head (see `collision_squares`), each occurring several times, in two trees
+/// through one cache
+fn collision_multi(out: &mut Vec<String>, case: &mut usize, rng: &mut Rng, tier: &str, bes: &[&str]) {
+    let t = |k: u32, s: &str| RefTree::Tok(k, s.to_string());
+    let n = |k: u32, cs: Vec<RefTree>| RefTree::Node(k, cs);
+    let pool: Vec<Vec<RefTree>> = vec![
+        vec![t(10, "a")],
+        vec![t(10, "b")],
+        vec![t(10, "a"), t(10, "b")],
+        vec![t(10, "b"), t(10, "a")],
+        vec![t(11, "é")],
+        vec![t(10, "ab")],
+        vec![n(2, vec![t(10, "a")]), t(10, "b")],
+        vec![t(12, "+")],
+        vec![t(17, "+")],
+        vec![t(18, "a")],
+        vec![t(10, "a"), t(12, "+")],
+        vec![t(18, "a"), t(17, "+")],
+    ];
+    let tl = |cs: &Vec<RefTree>| -> usize {
+        fn l(t: &RefTree) -> usize {
+            match t {
+                RefTree::Tok(_, s) => s.len(),
+                RefTree::Node(_, cs) => cs.iter().map(l).sum(),
+            }
+        }
+        cs.iter().map(l).sum()
+    };
+    // three and more different small nodes with one head, each occurring several times (the overflow list of the node cache
+    // then holds more than one node of that head): every repeat must be answered with the first allocation of its kind
+    let n_multi = if tier == "thorough" { 120 } else { 24 };
+    for k in 0..n_multi {
+        let mask = [0u32, 1, 3][k % 3];
+        // all child lists of one text length
+        let want = [1usize, 2][(k / 3) % 2];
+        let same: Vec<&Vec<RefTree>> = pool.iter().filter(|cs| tl(cs) == want).collect();
+        if same.len() < 3 {
+            continue;
+        }
+        let cnt = 3 + rng.below(same.len().min(5) - 2);
+        let mut idx: Vec<usize> = (0..same.len()).collect();
+        for a in (1..idx.len()).rev() {
+            let b = rng.below(a + 1);
+            idx.swap(a, b);
+        }
+        let chosen: Vec<&Vec<RefTree>> = idx[..cnt].iter().map(|i| same[*i]).collect();
+        let kind = [1u32, 5][k % 2];
+        let mut kids = vec![];
+        // first occurrences in order, then repeats in a shuffled order, twice
+        for c in &chosen {
+            kids.push(n(kind, (*c).clone()));
+        }
+        for _ in 0..2 {
+            let mut order: Vec<usize> = (0..cnt).collect();
+            for a in (1..order.len()).rev() {
+                let b = rng.below(a + 1);
+                order.swap(a, b);
+            }
+            for o in order {
+                kids.push(n(kind, chosen[o].clone()));
+            }
+        }
+        // empty nodes collide with each other without any mask: (k, 0, hash of nothing / of empty children)
+        let z = n(0, vec![]);
+        let fam = [n(kind, vec![]), n(kind, vec![z.clone()]), n(kind, vec![z.clone(), z.clone()])];
+        if k % 4 == 0 {
+            kids = vec![fam[0].clone(), fam[1].clone(), fam[2].clone(), fam[2].clone(), fam[1].clone(), fam[2].clone(), fam[0].clone()];
+        }
+        for (ti, sh) in [n(0, kids.clone()), n(0, kids.iter().rev().cloned().collect())].into_iter().enumerate() {
+            if ti == 0 {
+                out.push(format!("cfg mask {}", if k % 4 == 0 { u32::MAX } else { mask }));
+                out.push(format!("case {}", *case));
+                *case += 1;
+                out.push(format!("cache {}", bes[*case % bes.len()]));
+            }
+            // the second tree goes through the same cache: its nodes are all repeats
+            out.push("builder c0".into());
+            emit_tree(&sh, out, rng);
+            out.push("finish".into());
+            after_finish(out, ti);
+        }
+    }
     out.push(format!("cfg mask {}", u32::MAX));
 }
 
@@ -460,6 +546,7 @@ pub fn gen_history(seed: u64, tier: &str) -> Vec<String> {
             }
         }
     }
+    collision_multi(&mut out, &mut case, &mut rng, tier, &bes);
     out.push(format!("cfg mask {}", u32::MAX));
     out
 }
@@ -682,6 +769,27 @@ pub fn gen_checkpoints(seed: u64, tier: &str) -> Vec<String> {
             out.push("finish_node".into());
         }
         out.push("finish".into());
+    }
+    // great nesting depths (around the 8-, 16- and 17-bit boundaries of a depth counter)
+    out.push(format!("case {}", case));
+    case += 1;
+    for n in [0usize, 1, 255, 256, 257, 65535, 65536, 65537, 70000, 131072, 131073] {
+        out.push(format!("deepcp {}", n));
+    }
+    if tier == "thorough" {
+        // the same history through the protocol, against the model
+        for n in [65537usize] {
+            out.push(format!("case {}", case));
+            case += 1;
+            out.push("cache user".into());
+            out.push("builder c0".into());
+            for _ in 0..n {
+                out.push("start 0".into());
+            }
+            for l in ["cp", "tok 10 61", "revert k0", "tok 10 62", "cp", "tok 10 63", "start_at k1 2", "finish_node", "finish_node", "finish_node"] {
+                out.push(l.to_string());
+            }
+        }
     }
     out
 }
